@@ -429,12 +429,16 @@ pub trait MapValidBasic<T: IsNone>: TrustedLen<Item = T> + Sized {
                 } else {
                     let value = value.unwrap();
                     let mut out = None;
-                    for (bound, label) in bins
+                    for (i, (bound, label)) in bins
                         .titer()
                         .tuple_windows::<(T::Inner, T::Inner)>()
                         .zip(labels.titer())
+                        .enumerate()
                     {
-                        if (bound.0 < value) && (value <= bound.1) {
+                        // with open outer bounds nothing lies below the first bin or above the last one
+                        let above_lower = (add_bounds && i == 0) || (bound.0 < value);
+                        let below_upper = (add_bounds && i + 1 == labels.len()) || (value <= bound.1);
+                        if above_lower && below_upper {
                             out = Some(label.clone());
                             break;
                         }
@@ -449,12 +453,16 @@ pub trait MapValidBasic<T: IsNone>: TrustedLen<Item = T> + Sized {
                 } else {
                     let value = value.unwrap();
                     let mut out = None;
-                    for (bound, label) in bins
+                    for (i, (bound, label)) in bins
                         .titer()
                         .tuple_windows::<(T::Inner, T::Inner)>()
                         .zip(labels.titer())
+                        .enumerate()
                     {
-                        if (bound.0 <= value) && (value < bound.1) {
+                        // with open outer bounds nothing lies below the first bin or above the last one
+                        let above_lower = (add_bounds && i == 0) || (bound.0 <= value);
+                        let below_upper = (add_bounds && i + 1 == labels.len()) || (value < bound.1);
+                        if above_lower && below_upper {
                             out = Some(label.clone());
                             break;
                         }
